@@ -42,3 +42,82 @@ theorem mem_sortBy {α} (le : α → α → Bool) (a : α) (l : List α) :
   | cons y ys ih => simp only [sortBy, mem_insertBy, ih, List.mem_cons]
 
 end Emu
+
+namespace Emu
+
+theorem perm_insertBy {α} (le : α → α → Bool) (x : α) (l : List α) : (insertBy le x l).Perm (x :: l) := by
+  induction l with
+  | nil => exact List.Perm.refl _
+  | cons y ys ih =>
+    simp only [insertBy]
+    split
+    · exact (List.Perm.cons y ih).trans (List.Perm.swap x y ys)
+    · exact List.Perm.refl _
+
+theorem perm_sortBy {α} (le : α → α → Bool) (l : List α) : (sortBy le l).Perm l := by
+  induction l with
+  | nil => exact List.Perm.refl _
+  | cons x xs ih => exact (perm_insertBy le x _).trans (List.Perm.cons x ih)
+
+theorem length_sortBy {α} (le : α → α → Bool) (l : List α) : (sortBy le l).length = l.length :=
+  (perm_sortBy le l).length_eq
+
+/-- inserting into a sorted list keeps it sorted (total, transitive order) -/
+theorem pairwise_insertBy {α} (le : α → α → Bool)
+    (total : ∀ a b, le a b = true ∨ le b a = true)
+    (trans : ∀ a b c, le a b = true → le b c = true → le a c = true)
+    (x : α) (l : List α) (h : l.Pairwise (fun a b => le a b = true)) :
+    (insertBy le x l).Pairwise (fun a b => le a b = true) := by
+  induction l with
+  | nil => simp [insertBy]
+  | cons y ys ih =>
+    simp only [insertBy]
+    rw [List.pairwise_cons] at h
+    split
+    · rename_i hyx
+      rw [List.pairwise_cons]
+      refine ⟨?_, ih h.2⟩
+      intro z hz
+      rw [mem_insertBy] at hz
+      cases hz with
+      | inl e => rw [e]; exact hyx
+      | inr hz => exact h.1 z hz
+    · rename_i hyx
+      have hxy : le x y = true := by
+        cases total x y with
+        | inl h' => exact h'
+        | inr h' => exact absurd h' hyx
+      rw [List.pairwise_cons]
+      refine ⟨?_, List.pairwise_cons.mpr h⟩
+      intro z hz
+      simp only [List.mem_cons] at hz
+      cases hz with
+      | inl e => rw [e]; exact hxy
+      | inr hz => exact trans x y z hxy (h.1 z hz)
+
+theorem pairwise_sortBy {α} (le : α → α → Bool)
+    (total : ∀ a b, le a b = true ∨ le b a = true)
+    (trans : ∀ a b c, le a b = true → le b c = true → le a c = true) (l : List α) :
+    (sortBy le l).Pairwise (fun a b => le a b = true) := by
+  induction l with
+  | nil => simp [sortBy]
+  | cons x xs ih => exact pairwise_insertBy le total trans x _ ih
+
+/-- sorting a list that is already sorted (and whose order is antisymmetric on it) is the identity;
+    stated for the strict case used by the Model: a strictly sorted list is a fixed point. -/
+theorem insertBy_of_all_lt {α} (le : α → α → Bool) (x : α) (l : List α)
+    (h : ∀ y ∈ l, le y x = false) : insertBy le x l = x :: l := by
+  cases l with
+  | nil => rfl
+  | cons y ys => simp [insertBy, h y (by simp)]
+
+theorem sortBy_of_strict {α} (le : α → α → Bool) (l : List α)
+    (h : l.Pairwise (fun a b => le b a = false)) : sortBy le l = l := by
+  induction l with
+  | nil => rfl
+  | cons x xs ih =>
+    rw [List.pairwise_cons] at h
+    simp only [sortBy, ih h.2]
+    exact insertBy_of_all_lt le x xs h.1
+
+end Emu
